@@ -2,6 +2,8 @@ CONSTANTS
   GC = FALSE
   Broken = "none"
   MaxLen = 2
+  Family = "syntax"
+  SharedFiles = FALSE
   SharedSyntax = TRUE
 SPECIFICATION Spec
 INVARIANT Isolated
